@@ -4,8 +4,8 @@
    andb/orb inlined).  Z, positive, N, nat, ascii, string stay extracted
    inductives: no Extract Constant of our own. *)
 From Coq Require Import Extraction ExtrOcamlBasic List String.
-From Model Require Import Tree Offset.
+From Model Require Import Tree Offset Instr.
 Import ListNotations.
-Definition all_ops : op_table := Offset.ops.
+Definition all_ops : op_table := Offset.ops ++ Instr.ops.
 Extraction Language OCaml.
 Extraction "../ocaml/model.ml" all_ops.
